@@ -146,13 +146,22 @@ StdCatalogue == {
     [id |-> "from_ospath_join",    bind |-> "join",        obj |-> "os.path.join"],
     [id |-> "from_shlex_join",     bind |-> "join",        obj |-> "shlex.join"],
     [id |-> "import_pickle_as_json", bind |-> "json",      obj |-> "mod:pickle"] }
-CONSTANTS MaxStd, StdPlaces      \* StdPlaces: where the statements stand: "top", "infunc" (inside the using function), "mixed"
+CONSTANTS MaxStd, StdPlaces      \* StdPlaces: where the statements stand: "top", "infunc" (inside the using function), "mixed",
+                                 \* or one of the Conditional places below
 
 StdSeqs == UNION {{q \in [1..n -> StdCatalogue] : \A i, j \in 1..n : i # j => q[i].id # q[j].id} : n \in 1..MaxStd}
 \* the object a name is bound to after the statements ran in order
 LastBinding(q, name) == LET S == {i \in 1..Len(q) : q[i].bind = name} IN q[CHOOSE i \in S : \A j \in S : j <= i].obj
-StdCases == [stmts : StdSeqs, place : StdPlaces]
+\* Conditional places hold two statements of which ONE runs: "branch_if" / "branch_else" = the two branches of an if
+\* statement whose test is true / false at run time, "try_ok" = try body and `except ImportError` handler.
+Conditional == {"branch_if", "branch_else", "try_ok"}
+StdCases == {x \in [stmts : StdSeqs, place : StdPlaces] : x.place \in Conditional => Len(x.stmts) = 2}
+\* the statements that run, in order
+Executed(x) == CASE x.place \in {"branch_if", "try_ok"} -> <<x.stmts[1]>>
+                 [] x.place = "branch_else" -> <<x.stmts[2]>>
+                 [] OTHER -> x.stmts
 InitStd == c \in StdCases
-DumpStd == PrintT(<<"@@J", ToJson([stmts |-> [i \in 1..Len(c.stmts) |-> c.stmts[i].id], place |-> c.place,
-                                    resolve |-> [i \in 1..Len(c.stmts) |-> <<c.stmts[i].id, LastBinding(c.stmts, c.stmts[i].bind)>>]])>>)
+DumpStd == LET ex == Executed(c) IN
+           PrintT(<<"@@J", ToJson([stmts |-> [i \in 1..Len(c.stmts) |-> c.stmts[i].id], place |-> c.place,
+                                    resolve |-> [i \in 1..Len(ex) |-> <<ex[i].id, LastBinding(ex, ex[i].bind)>>]])>>)
 =============================================================================
